@@ -293,7 +293,7 @@ func (pmt *Payment) calculate() error {
 		if total == nil {
 			total = &a
 		} else {
-			nt := total.Add(a)
+			nt := total.MatchPrecision(a).Add(a)
 			total = &nt
 		}
 	}
